@@ -201,6 +201,7 @@ func (r *remoteKeySet) updateKeys(ctx context.Context) {
 	keys, err := r.fetchRemoteKeys(ctx)
 
 	r.inflight.done(keys, err)
+	verifAfterInflightDone()
 
 	// Lock to update the keys and indicate that there is no longer an
 	// inflight request.
